@@ -239,10 +239,10 @@ type c12proc struct {
 	err *bytes.Buffer
 }
 
-func startC12Worker() *c12proc {
+func startC12Worker(extraEnv ...string) *c12proc {
 	self, _ := os.Executable()
 	cmd := exec.Command(self, "c12worker")
-	cmd.Env = append(os.Environ(), "GOMEMLIMIT=2GiB")
+	cmd.Env = append(append(os.Environ(), "GOMEMLIMIT=2GiB"), extraEnv...)
 	in, _ := cmd.StdinPipe()
 	out, _ := cmd.StdoutPipe()
 	eb := &bytes.Buffer{}
